@@ -721,10 +721,15 @@ fn check_case(c: &Case, out: &Outcome<CaseObs>) -> Option<(String, String)> {
                     *b,
                     s,
                     &o,
-                    &|p1: &f64, p2: &f64, c: &f64| *c >= p1.min(*p2) - 1e-12 && *c <= p1.max(*p2) + 1e-12,
+                    // tolerances relative to the genes' magnitude; sums are compared in halves so that they cannot overflow
+                    &|p1: &f64, p2: &f64, c: &f64| {
+                        let t = 1e-12 * p1.abs().max(p2.abs()).max(1.0);
+                        *c >= p1.min(*p2) - t && *c <= p1.max(*p2) + t
+                    },
                     &|p1, p2, c1, c2| c1.len() == p1.len() && c2.len() == p1.len() && (0..p1.len()).all(|i| {
-                        let (lo, hi) = (p1[i].min(p2[i]) - 1e-12, p1[i].max(p2[i]) + 1e-12);
-                        c1[i] >= lo && c1[i] <= hi && c2[i] >= lo && c2[i] <= hi && ((c1[i] + c2[i]) - (p1[i] + p2[i])).abs() <= 1e-9
+                        let scale = p1[i].abs().max(p2[i].abs()).max(1.0);
+                        let (lo, hi) = (p1[i].min(p2[i]) - 1e-12 * scale, p1[i].max(p2[i]) + 1e-12 * scale);
+                        c1[i] >= lo && c1[i] <= hi && c2[i] >= lo && c2[i] <= hi && ((c1[i] * 0.5 + c2[i] * 0.5) - (p1[i] * 0.5 + p2[i] * 0.5)).abs() <= 1e-9 * scale
                     }),
                 ),
                 _ => {
@@ -794,7 +799,7 @@ fn describe(c: &Case) -> Value {
 /// The operator components on long solutions (beyond any buffer an implementation may size statically: 2^12, 2^16).
 fn long_cases(thorough: bool) -> Vec<(String, Case)> {
     let mut v = vec![];
-    let dims: Vec<usize> = if thorough { vec![130, 5000, 70_000] } else { vec![130, 5000] };
+    let dims: Vec<usize> = if thorough { vec![64, 128, 130, 192, 4096, 5000, 70_000] } else { vec![64, 128, 130, 5000] };
     for &d in &dims {
         let a: Vec<f64> = (0..d).map(|i| (i % 17) as f64 * 0.1 - 0.8).collect();
         let b: Vec<f64> = (0..d).map(|i| 1.5 - (i % 13) as f64 * 0.2).collect();
@@ -811,6 +816,13 @@ fn long_cases(thorough: bool) -> Vec<(String, Case)> {
         let y: Vec<bool> = (0..d).map(|i| (i / 7) % 2 == 0).collect();
         for (nm, op) in [("BitFlipMutation(rate 0.5)", BinOp::BitFlip(0.5)), ("BitFlipMutation(rate 1)", BinOp::BitFlip(1.0)), ("PartialRandomBitstring(rate 0.5)", BinOp::PartialRandomBitstring(0.5)), ("BitFlipMutation(rate 0)", BinOp::BitFlip(0.0))] {
             v.push((format!("{} dim={}", nm, d), Case::Bin(op, vec![x.clone(), y.clone()])));
+        }
+    }
+    // parents whose genes are further apart than the largest double: a convex combination never leaves [min, max]
+    for both in [false, true] {
+        for (a, b) in [(1.0e308, -1.0e308), (-1.7e308, 1.7e308), (f64::MAX, f64::MIN), (1.0e308, 1.0e308)] {
+            v.push((format!("ArithmeticCrossover pc=1 insert_both={} genes {:e} / {:e}", both, a, b), Case::CrossReal(XOp::Arithmetic, 1.0, both, vec![vec![a, b, 0.5], vec![b, a, 0.25], vec![a, a, -0.5]])));
+            v.push((format!("UniformCrossover pc=1 insert_both={} genes {:e} / {:e}", both, a, b), Case::CrossReal(XOp::Uniform, 1.0, both, vec![vec![a, b, 0.5], vec![b, a, 0.25]])));
         }
     }
     let ns: Vec<usize> = if thorough { vec![130, 1100, 5000] } else { vec![130, 1100] };
@@ -1220,6 +1232,9 @@ pub fn run(rep: &mut Report) {
             for sd in 0..2u64 {
                 let cfg = Cfg::prefix(&MENU4, 0, seed ^ crate::engine::util::fnv(name) ^ sd);
                 let (o, _) = tape::run_once(&cfg, &[], || run_case(c));
+                if matches!(o, Outcome::Truncated) {
+                    out.push(("C13 long-solution does-not-finish".to_string(), format!("{}: drew more than 4 million generator words", name), json!({"long_case": name, "seed": seed ^ crate::engine::util::fnv(name) ^ sd})));
+                }
                 if let Some((sg, d)) = check_case(c, &o) {
                     out.push((format!("{} long-solution", sg), format!("{}: {}", name, d.chars().take(500).collect::<String>()), json!({"long_case": name, "seed": seed ^ crate::engine::util::fnv(name) ^ sd})));
                 }
